@@ -1,6 +1,7 @@
 package main
 
 import (
+	"runtime"
 	"encoding/json"
 	"flag"
 	"fmt"
@@ -76,6 +77,20 @@ func main() {
 	_ = prop
 	_ = tier
 	_ = file
+	// watchdog: a stream that stops making progress (an operation blocked somewhere without a deadline of its own)
+	// ends with exit status 3 and a goroutine dump instead of hanging the check
+	budget := 10 * time.Minute
+	if *tier == "thorough" {
+		budget = 5 * time.Hour
+	}
+	go func() {
+		time.Sleep(budget)
+		fmt.Fprintf(os.Stderr, "WATCHDOG: stream %s did not finish within %s; goroutines:\n", stream, budget)
+		buf := make([]byte, 1<<20)
+		os.Stderr.Write(buf[:runtime.Stack(buf, true)])
+		cleanupTemps()
+		os.Exit(3)
+	}()
 	start := time.Now()
 	var rep *RunReport
 	switch stream {
